@@ -18,7 +18,7 @@ claim("C02",
       "Decides structural necessary conditions of per-stream independence on every path: neither the server's per-session stream "
       "accept loop nor the client's local accept loop synchronously runs anything that can wait on the accepted stream (call cone "
       "to blocking primitives); Channel implementations hold no connection state and OpenConnection never stores into its receiver; "
-      "no OpenStream / protocol selection inside the upstream mutex. every io.CopyBuffer scratch buffer is allocated per copy; the shared physical connection/session is closed only by a failed session set-up or Shutdown, never by a per-channel path. accept loops do not park on channels / sync waits; every serving goroutine gets the stream of its own iteration (no shared re-assigned variable); Upstreams.Shutdown is not called from the client's connection path (unless the session is known dead); Does not decide scheduling, smux flow control or byte isolation inside smux.",
+      "no OpenStream / protocol selection inside the upstream mutex. every io.CopyBuffer scratch buffer is allocated per copy; the shared physical connection/session is closed only by a failed session set-up or Shutdown, never by a per-channel path. accept loops do not park on channels / sync waits; every serving goroutine gets the stream of its own iteration (no shared re-assigned variable); Upstreams.Shutdown is not called from the client's connection path (unless the session is known dead); the smux receive bucket shared by all streams is not reduced below the library default; Does not decide scheduling, smux flow control or byte isolation inside smux.",
       "Not decided: fairness, smux's shared receive buffer, the multistream/smux first-frame race.")
 
 claim("C14",
@@ -26,14 +26,14 @@ claim("C14",
       "Decides the structural conditions without which finished connections leave residue, on all paths: every completion-report channel "
       "can absorb all reports of its sender goroutines (capacity + guaranteed receives >= sends); after PipeData both ends are closed on "
       "every path (inside it, or in each caller, its defers, or its callers); after a failed AcceptStream no path returns to AcceptStream "
-      "without return / back-off (smux IsClosed() does not count: it stays false after a latched socket error). every handler that accepted a connection or stream closes it on each path on which it does not hand it on. the shared physical connection/session are replaced only under the mutex after a reuse test made under it (no orphaned session). Does not measure goroutines, descriptors or CPU.",
+      "without return / back-off (smux IsClosed() does not count: it stays false after a latched socket error). every handler that accepted a connection or stream closes it on each path on which it does not hand it on. the shared physical connection/session are replaced only under the mutex after a reuse test made under it (no orphaned session). a wrapper is marked closed only by its own Close. Does not measure goroutines, descriptors or CPU.",
       "Not decided: measured footprint, library goroutines, carrier left open after a failed handshake.")
 
 claim("C15",
       "accept-loop shape analysis over SSA + synchronous call cone to blocking primitives",
       "Decides, for every listener accept loop of package server (socket, DNS-over-socket, KCP/UDP), that no call inside the loop that "
       "receives the accepted connection can wait for that peer (handshake read, TLS handshake, any Read) unless it is started with go; "
-      "no server-side function calls, while holding a mutex field, anything that locks that field again (self-deadlock of the DNS pruner wedges all later peers); accept loops do not park on channels; nothing that can wait for another party is reachable while the DNS user table lock or a server-wide mutex is held; lists every Server implementation and how its peers arrive. Structural necessary condition for 'a stalled peer delays only itself'.",
+      "no server-side function calls, while holding a mutex field, anything that locks that field again (self-deadlock of the DNS pruner wedges all later peers); accept loops do not park on channels; nothing that can wait for another party is reachable while the DNS user table lock or a server-wide mutex is held; the websocket router installs no middleware bounding requests in flight or their duration; lists every Server implementation and how its peers arrive. Structural necessary condition for 'a stalled peer delays only itself'.",
       "Not decided: fairness under load, time bounds, tls.Listen's lazy handshake; net/http's per-request goroutine is trusted.")
 
 claim("C17",
@@ -41,7 +41,7 @@ claim("C17",
       "Decides the ordering facts behind 'all data, then end-of-stream': in PipeData no close precedes a copier's completion report; a copier "
       "reports exactly once after io.Copy* and io.EOF only when the copy returned nil; both ends are closed after the pipe ends; the DNS "
       "tunnel's Read methods return io.EOF only under HasData()==false; the DNS client's Close sends the final ack and the Closed option "
-      "before closing its communicator on every live-session path. no per-channel failure path closes the session shared by the other channels. a reader+writer pair closes its write half on every path; after the first copier reported no close waits for the second report; Structural, not a delivery proof.",
+      "before closing its communicator on every live-session path. no per-channel failure path closes the session shared by the other channels. a reader+writer pair closes its write half on every path; after the first copier reported no close waits for the second report; every Write reports the full count on success; Structural, not a delivery proof.",
       "Not decided: timing, half-close, smux FIN ordering, waking a reader blocked in the DNS in-queue.")
 
 claim("C04",
@@ -51,7 +51,7 @@ claim("C04",
       "successful crypto/tls handshake (directly or via a helper whose success returns are so dominated) and the TLS connection is what is returned; "
       "once StartTLS is requested both roles return the TLS connection or an error, never the plain connection; StartTLS is advertised only under "
       "!secure; the secure argument of AcceptConnection/NewClientConnection can be true only with a TLS-built carrier (tls.Dial/Listen/ServeTLS/"
-      "handshake/TLSConfig/scheme tests). Connect never rewrites the configured scheme, so a reconnect of a +tls upstream is a TLS connect again. Does not observe the wire.",
+      "handshake/TLSConfig/scheme tests). Connect never rewrites the configured scheme, so a reconnect of a +tls upstream is a TLS connect again. the --secure option reaches MustSecure and every Upstream.Connect unchanged; Does not observe the wire.",
       "Not decided: clear-text payload on the wire, crypto/tls itself.")
 
 claim("C05",
@@ -88,7 +88,7 @@ claim("C01",
       "the caller's buffer is small and every partial copy stores its remainder back on all paths; BufferedInputConnection.Read delegates to the "
       "bufio.Reader, connections returned by the handshake functions derive from the buffered connection and neither the raw carrier nor the embedded "
       "unbuffered connection is used again; PipeData starts one copier per direction and each reaches io.Copy* with its own reader/writer; both smux "
-      "configurations start from DefaultConfig with MaxFrameSize inside smux's range. every Write([]byte) reports len(p) of the buffer as passed (or the delegate's count) on success and the websocket writer forwards the whole buffer. every serving goroutine works on the connection accepted for it (loop-variable escape); buffers written under a mutex are written under one common mutex at every write site (static lockset consistency); Not byte equality.",
+      "configurations start from DefaultConfig with MaxFrameSize inside smux's range. every Write([]byte) reports len(p) of the buffer as passed (or the delegate's count) on success and the websocket writer forwards the whole buffer. every serving goroutine works on the connection accepted for it (loop-variable escape); buffers written under a mutex are written under one common mutex at every write site (static lockset consistency); a websocket read limit admits the largest message the tunnel itself sends; Not byte equality.",
       "Not decided: equality of delivered bytes, library behaviour (smux, gorilla, kcp, crypto/tls), partial writes.")
 
 claim("C16",
@@ -96,7 +96,7 @@ claim("C16",
       "Decides the control structure of the client's connection policy: the upstream connect is reachable only on ConnectDirectly's false edge; "
       "upstreams are tried as Data[0], Data[1], ... with failure continuing and the first success returning, no reordering helper; the shared "
       "connection/session are stored only while the upstream mutex is held (directly or in helpers called only under it) and a new physical "
-      "connection is opened only under connection == nil || connection.Closed() inside the critical section; GetTlsConfig is fresh per attempt so one upstream's ServerName cannot leak into the next attempt; the reuse test is evaluated inside the lock region; the flag-carrying wrappers' Close marks them closed on every path (the reuse test reads Closed()); a deadline/timer must precede the "
+      "connection is opened only under connection == nil || connection.Closed() inside the critical section; GetTlsConfig is fresh per attempt so one upstream's ServerName cannot leak into the next attempt; the reuse test is evaluated inside the lock region; the flag-carrying wrappers' Close marks them closed on every path (the reuse test reads Closed()); an upstream counts as secure only over a TLS-built carrier or a TLS scheme; a deadline/timer must precede the "
       "blocking client handshake in every Upstream.Connect (violated on the pinned tree at all five: recorded known findings).",
       "Not decided: numeric time bounds, OS connect time-outs, reconnect after loss (smux keep-alive timing).")
 
@@ -105,7 +105,7 @@ claim("C18",
       "Decides the table structure of address interpretation: every documented scheme has a case constructing the documented type in the four "
       "dispatchers, each switch has an error-returning default, a dispatcher that switches on an expression computed from the scheme is rejected; sibling switches agree; every implementation chosen for a +tls scheme sets its "
       "secure flag on every successful +tls path and ProtoAddress.Addr covers the admitted socket/packet schemes; all Unmarshal{YAML,JSON,Flag} "
-      "forms of a configuration type reach the same dispatcher (Channels.UnmarshalFlag does not: recorded known finding); Connect never rewrites the configured address/scheme; no maybe-nil pointer is "
+      "forms of a configuration type reach the same dispatcher (Channels.UnmarshalFlag does not: recorded known finding); Connect never rewrites the configured address/scheme; no unchecked type assertion on decoded configuration data that valid input can reach; no maybe-nil pointer is "
       "dereferenced unguarded in the parsing cone.",
       "Not decided: net/url parsing, the yaml/reflection bridge, arbitrary malformed strings. README table is transcribed in the checker.")
 
@@ -115,7 +115,7 @@ claim("C07",
       "+/- constants (rotation invariance = wrap safety); the bounded ack memory evicts from the head and every append is followed by the bound on all "
       "paths; every Lock in the DNS packages is released (directly or by a passed defer) on every path to every return; closures invoked under a queue "
       "mutex cannot block on a channel; outgoing acks are in.NextSeqNo-1 and incoming acks/packets reach out.UpdateAcked/in.Append of the same endpoint; "
-      "the chunking loop runs only where mtu > 0 holds. the in-queue releases only NextSeqNo in order, parks only unseen in-window packets and remembers them as seen; OutQueue.Write's returned count covers every queued chunk; acked chunks are removed by sequence number equality. ack/payload fields of an Err-bearing answer reach the queues only on Err == nil; no function re-locks a mutex field it holds (cone incl. func-typed fields). lock-protected fields are written under one common mutex everywhere; the mutexes of the tunnel are acquired in one global order. Not a delivery proof.",
+      "the chunking loop runs only where mtu > 0 holds. the in-queue releases only NextSeqNo in order, parks only unseen in-window packets and remembers them as seen; OutQueue.Write's returned count covers every queued chunk; acked chunks are removed by sequence number equality. ack/payload fields of an Err-bearing answer reach the queues only on Err == nil; no function re-locks a mutex field it holds (cone incl. func-typed fields). lock-protected fields are written under one common mutex everywhere; the mutexes of the tunnel are acquired in one global order. a flag raised around a region and lowered on success is lowered on error returns too. Not a delivery proof.",
       "Not decided: delivery, retransmission convergence, duplicate suppression over real loss histories, liveness.")
 
 claim("C13",
@@ -132,7 +132,7 @@ claim("C12",
       "Decides the containment and guard structure between an arbitrary DNS message and a crash or unbounded work: the handler registered with miekg/dns "
       "and the client's answer decoder both run under a deferred recover() installed before any message-derived work; every invoked func-typed field of "
       "the command table is non-nil in all entries or nil-tested before each call; client-requested sizes reach allocations / the stored fragment size "
-      "only on paths with constant upper (and, for the stride, positive lower) bounds; the answer decoder turns a recovered panic into a non-nil named error result; parked out-of-order packets are bounded by the window test; every data-driven loop in the untrusted cone changes a loop-carried "
+      "only on paths with constant upper (and, for the stride, positive lower) bounds; the answer decoder turns a recovered panic into a non-nil named error result; handlers touch session state only after the owner check; an error answer always decodes to a non-nil error; parked out-of-order packets are bounded by the window test; every data-driven loop in the untrusted cone changes a loop-carried "
       "exit variable on every cyclic path.",
       "Not decided: numeric time/allocation bounds, miekg's own parsing, unrecoverable runtime errors. miekg's one-question rule and lack of recover are trusted facts.")
 
@@ -142,7 +142,7 @@ claim("C08",
       "table has radix-many pairwise distinct symbols, none a dot, backslash, space or control character; FromCode's registry lists every codec, codes are "
       "distinct upper-case constants; table-driven codecs encode and decode with the same encoding object; Base85's substitutions cover the forbidden bytes "
       "ascii85 can emit, land outside ascii85's alphabet and are inverted by Decode; the byte counts returned by ascii85.Encode/Decode cut the buffer. "
-      "ascii85.Decode is given 4*len+4 bytes of room or its consumed count is inspected; every declared codec ratio is >= the radix-derived lower bound. substitution tables given as strings.NewReplacer pairs are read too and must be byte-for-byte; This is the structural minority of the property.",
+      "ascii85.Decode is given 4*len+4 bytes of room or its consumed count is inspected; every declared codec ratio is >= the radix-derived lower bound. substitution tables given as strings.NewReplacer pairs are read too and must be byte-for-byte; Encode/Decode results are memory of their own (no pool/global/field); This is the structural minority of the property.",
       "Not decided (most of the property): round-trip equality and expansion bounds of the arithmetic/bit-packing codecs (Base128, Base192), library codecs' behaviour.")
 
 claim("C11",
@@ -150,7 +150,7 @@ claim("C11",
       "Decides the structural part of 'probe, then commit, and terminate': each commit step is dominated by its probe (fragment size receives the probe's result "
       "on err==nil; version handshake only with a preset or successfully detected query type) and Handshake succeeds only after the mandatory steps returned nil; "
       "every candidate codec is registered and every upstream candidate has a test pattern; the fragment-probe generator and checker use equal constants and both "
-      "ends use the single DownloadCodecCheck; a candidate codec / query type is committed only on the no-error edge of its own probe (facts established after the candidate was picked); the upstream fragment size is recomputed after the last step that can change the upstream codec; every loop in Handshake's synchronous cone changes a loop-carried exit variable on every cyclic path; every codec "
+      "ends use the single DownloadCodecCheck; a candidate codec / query type is committed only on the no-error edge of its own probe (facts established after the candidate was picked); the upstream fragment size is recomputed after the last step that can change the upstream codec; the fragment size recorded as working is the very value that was probed; every loop in Handshake's synchronous cone changes a loop-carried exit variable on every cyclic path; every codec "
       "assigned to the upstream direction without a probe is injective under ASCII case folding.",
       "Not decided: 'probe passed => data works on that path', 8-bit mangling, size limits, lost replies to a commit.")
 
@@ -160,7 +160,7 @@ claim("C09",
       "fixed-width fields, blobs) is matched by a successful decoder path reading the same widths into the same fields under tag conditions that hold "
       "for the constants written; both sides use the same codec object, matching header helpers and one byte order; the 1+3(+2) header is emitted and "
       "stripped with equal constants under the same flag, user ids are base-36, 2 characters, modulo 36^2; dot insertion <= 63, dotting threshold <= 63, "
-      "the dot inserter is proven (linear entailment along paths) to emit pieces of at most 63 octets and a non-empty piece after every dot; names bounded from 253 and every question name comes from PrepareHostname under err==nil; command codes are distinct under case folding and the "
+      "the dot inserter is proven (linear entailment along paths) to emit pieces of at most 63 octets and a non-empty piece after every dot; no consuming step of the name unescaper is guarded more strictly than its width; names bounded from 253 and every question name comes from PrepareHostname under err==nil; command codes are distinct under case folding and the "
       "cache-busting alphabet is lower-case letters and digits.",
       "Not decided: size budget (float/codec ratio) vs. name limit for every payload, miekg escaping of 8-bit output, value equality for all field values.")
 
@@ -169,7 +169,7 @@ claim("C10",
       "Decides the agreement structure of response carriage: response Encode/Decode layouts agree (widths, fields, tag constants, codec object, byte order); "
       "the record types constructed by the Wrap* functions equal the case sets of the reassembly and ordering type switches and the dispatcher covers every "
       "selectable query type; per record type the order-tag bytes prepended equal the prefix stripped; tag + chunk fills A (4) and AAAA (16) exactly; CNAME, MX "
-      "and SRV targets are built by PrepareHostname; no character-set trimming in the reassembly cone; per-record payload constants stay within the record type's capacity; no capacity guard in a Wrap* function is decided by its operand type alone and narrowing conversions there are proven in range; a wrapping helper never appends to a slice parameter that a caller fills with a sub-slice of a longer buffer; the private RR type registered with miekg equals the type emitted and queried.",
+      "and SRV targets are built by PrepareHostname; no character-set trimming in the reassembly cone; per-record payload constants stay within the record type's capacity; no capacity guard in a Wrap* function is decided by its operand type alone and narrowing conversions there are proven in range; a wrapping helper never appends to a slice parameter that a caller fills with a sub-slice of a longer buffer; a message whose construction returned an error is never written to the wire; the private RR type registered with miekg equals the type emitted and queried.",
       "Not decided: miekg Pack/Unpack (escaping, TXT limits), capacity for all payload lengths, tag arithmetic beyond 512 records.")
 
 for pid in ["C01","C02","C03","C04","C05","C06","C07","C08","C09","C10","C11","C12","C13","C14","C15","C16","C17","C18"]:
